@@ -318,8 +318,27 @@ def gen_op(rng, ai, pool, ctx):
         return {'alg': ai, 'kind': 'un', 'op': name, 'form': form, 'args': [a]}
     if kind == 'meth':
         a = gen_operand(rng, pool, ai, ctx)
-        name = rng.choice(['grade', 'grade', 'dual', 'undual', 'norm', 'normalized', 'exp', 'pow', 'pow',
-                           'asfullmv', 'filter', 'getblade'])
+        names = ['grade', 'grade', 'dual', 'undual', 'norm', 'normalized', 'exp', 'pow', 'pow',
+                 'asfullmv', 'filter', 'getblade', 'map']
+        if pool.d <= 3:
+            names.append('asmatrix')
+        if ctx['valkind'] == 'nd':
+            names += ['index', 'index']
+        name = rng.choice(names)
+        if rng.random() < 0.12:
+            # cached objects handed out by the algebra itself
+            pname = rng.choice(['pss', 'frame', 'blade', 'blade', 'blades_grade'] + (['reciprocal_frame'] if pool.d <= 3 else []))
+            op = {'alg': ai, 'kind': 'algprop', 'op': pname, 'args': []}
+            if pname == 'blade':
+                n = pool.name[rng.choice(pool.canon)]
+                if len(n) > 2 and rng.random() < 0.4:
+                    idx = list(n[1:])
+                    rng.shuffle(idx)
+                    n = 'e' + ''.join(idx)
+                op['params'] = [n]
+            elif pname == 'blades_grade':
+                op['params'] = [rng.randrange(pool.d + 1)]
+            return op
         op = {'alg': ai, 'kind': 'meth', 'op': name, 'args': [a]}
         if name == 'grade':
             op['params'] = sorted(rng.sample(range(pool.d + 1), rng.randint(1, min(2, pool.d + 1))))
@@ -333,6 +352,10 @@ def gen_op(rng, ai, pool, ctx):
             op['params'] = rng.choice([[], [1], [0]])
         elif name == 'getblade':
             op['params'] = [pool.name[rng.choice(pool.canon)]]
+        elif name == 'map':
+            op['params'] = rng.choice([[], [2]])
+        elif name == 'index':
+            op['params'] = [rng.randrange(3)]
         return op
     if kind == 'reg':
         bid = rng.choice(regs)
